@@ -371,3 +371,23 @@ Example C04_many_nonvacuous :
     /\ o_type o = T' /\ o_type o' = T' /\ length L = 3%nat /\ length (o_link o) = 3%nat /\ length ws = 2%nat
     /\ Forall (fun o => Unrelated T (o_type o)) [o; o'].
 Proof. exact many_nonvacuous. Qed.
+
+(* The symmetric statement (NetMany.v): a family of providers indexed by nat (those that never act stay idle), acting in
+   ANY interleaving, and any number of browsers of ANY types, each with its own cache, hearing every multicast response of
+   all providers in order.  A browser "follows" provider i when its type is provider i's type, that type is unrelated to
+   the type of every other provider, non-empty and not the enumeration type.  After every step every browser reports
+   exactly what the provider it follows serves. *)
+Theorem C04_every_browser_follows_its_provider_partial P bs :
+  netS P bs -> forall i b, In b bs -> follows P i b -> reports_served (bn_type b) (o_comp (P i)) (bn_world b).
+Proof. exact (every_browser_follows_its_provider P bs). Qed.
+Print Assumptions C04_every_browser_follows_its_provider_partial.
+
+(* non-vacuity: providers of "_t.", "_b." and idle ones of "_c." with a browser of "_t." and one of "_b."; both active
+   providers register; each browser follows its provider *)
+Example C04_symmetric_nonvacuous :
+  exists P bs, netS P bs /\ h_reg (cp_host (o_comp (P 0%nat))) = true /\ h_reg (cp_host (o_comp (P 1%nat))) = true
+    /\ map bn_type bs = map bn_type B0 /\ forall j, o_type (P j) = o_type (P0 j).
+Proof. exact symmetric_nonvacuous. Qed.
+Example C04_symmetric_follows P b0 b1 : (forall j, o_type (P j) = o_type (P0 j)) -> map bn_type [b0; b1] = map bn_type B0 ->
+  follows P 0 b0 /\ follows P 1 b1.
+Proof. exact (symmetric_follows P b0 b1). Qed.
